@@ -107,7 +107,10 @@ PoissonDistribution<RealType>::operator()(Generator& rng) -> result_type
         return static_cast<result_type>(k - 1);
     }
     // Use Gaussian approximation rounded to nearest integer
-    return result_type(sample_normal_(rng) + real_type(0.5));
+    // The Gaussian approximation can produce a negative sample: clamp it so
+    // the conversion to an unsigned count cannot wrap around
+    return result_type(
+        celeritas::max(sample_normal_(rng) + real_type(0.5), real_type(0)));
 }
 //---------------------------------------------------------------------------//
 }  // namespace celeritas
